@@ -64,6 +64,11 @@ SAFE_DEREF = ("v", "assign", "cond", "comma", "call", "stmtexpr", "addr", "compl
 UNSAFE_PTR = ("padd", "psub", "asg.p", "inc.p", "dec.p", "cast.l>p")      # pointer may leave gi[]: never dereferenced
 
 
+def far_pointer(d):
+    """pointer arithmetic with a non-leaf integer operand: the result may be far outside gi[]"""
+    return any(w in d for w in ("padd(", "psub(", "addasg.p(", "cast.l>p(")) and d not in ("padd(v,v)", "psub(v,v)", "addasg.p(v)", "cast.l>p(v)")
+
+
 class Gen:
     """exprs(T, n, idx, reps) -> list of (text, desc): all expressions of type T with exactly n composite nodes;
     idx = pre-order index of the root among the composite nodes of the whole expression (selects lvalue slots)."""
@@ -110,6 +115,8 @@ class Gen:
                     for (s2, d2) in self.sub(U2, b, idx + 1 + a, 1, reps):
                         if "bf" in d1 and "bf" in d2:
                             continue        # two accesses to the bit-field unit would be unsequenced
+                        if (name.endswith(".p") or name == "ptrdiff") and (far_pointer(d1) or far_pointer(d2)):
+                            continue        # comparing / subtracting pointers that may have left the object is undefined
                         out.append((fmt % (s1, s2), "%s(%s,%s)" % (name, d1, d2)))
 
         if T in ARITH:
@@ -154,7 +161,7 @@ class Gen:
                     out.append(("(gs[%d].c = %s)" % (lv, s), "mstore(%s)" % d))
                     if "bf" not in d:
                         out.append(("(gb.x = (%s & 7))" % s, "bfstore.x(%s)" % d))
-                        out.append(("(gb.y += (%s & 3))" % s, "bfaddasg.y(%s)" % d))
+                        out.append(("(gb.y += (%s & 1))" % s, "bfaddasg.y(%s)" % d))
                     out.append(("k7(1, 2, 3, 4, 5, 6, %s)" % s, "call.k7(%s)" % d))
                     out.append(("k8(1, 2, 3, 4, 5, 6, 7, %s)" % s, "call.k8(%s)" % d))
                 if m == 0:
@@ -1353,6 +1360,10 @@ def run(ctx):
         raise core.HarnessError("duplicate case ids")
     rtd = ctx.mkdir("rt")
     rt = build_rt(rtd)
+    if os.environ.get("VERIF_C20_FILTER"):
+        # debugging aid: restrict the run to the case ids matching a regular expression (never a complete run)
+        cases = [c for c in cases if re.search(os.environ["VERIF_C20_FILTER"], c["id"]) or c["size"] <= 1]
+        ctx.incomplete("VERIF_C20_FILTER=%s: %d cases only" % (os.environ["VERIF_C20_FILTER"], len(cases)))
     keys = [c["id"] for c in cases]
     # shard: interleave so that every batch has a similar mix; VERIF_SEED only rotates the assignment
     nb = max(1, (len(keys) + BATCH - 1) // BATCH)
